@@ -427,3 +427,28 @@ def regime_dates(lo="2009-01-01", hi="2025-12-31"):
         if not pts or pts[-1] < s:
             pts.append(e)
     return tuple(d.isoformat() for d in pts)
+
+
+@functools.lru_cache(maxsize=None)
+def change_dates(lo="2015-01-01", hi="2025-12-31", skip_2017h1=True):
+    """Every day in [lo, hi] on which a parameter entry or a dated rule version of the tree under test starts
+    (plus lo itself).  2017-01-01 .. 2017-06-30 can be left to C08 / C19 (default targets not computable there)."""
+    import datetime
+
+    import c07
+    from _gettsim.functions_loader import load_internal_functions
+    from _gettsim.shared import TIME_DEPENDENT_FUNCTIONS
+
+    a, b = datetime.date.fromisoformat(lo), datetime.date.fromisoformat(hi)
+    days = {a}
+    for g in c07.export_raw():
+        for p in g["params"]:
+            days |= {datetime.date.fromordinal(e["day"]) for e in p["entries"]}
+    load_internal_functions()
+    for fl in TIME_DEPENDENT_FUNCTIONS.values():
+        for f in fl:
+            days.add(f.__info__["start_date"])
+    out = sorted(d for d in days if a <= d <= b)
+    if skip_2017h1:
+        out = [d for d in out if not (datetime.date(2017, 1, 1) <= d <= datetime.date(2017, 6, 30))]
+    return tuple(d.isoformat() for d in out)
